@@ -907,38 +907,32 @@ class JinjaTemplater(PythonTemplater):
         handled correctly and can be combined with those from the original
         template.
         """
-        # NOTE: We sort the stack because it's important that it's in order
-        # because we're going to be popping from one end of it. There's no
-        # guarantee that the items are in a particular order a) because it's
-        # a dict and b) because they may have been generated out of order.
-        delta_stack = sorted(length_deltas.items(), key=lambda t: t[0])
-
-        adjusted_slices: list[TemplatedFileSlice] = []
+        # Work out where each modified tag starts in the *modified* template:
+        # the keys of `length_deltas` are positions in the original file, and
+        # every earlier modification shifts the later ones.
+        # NOTE: We sort because there's no guarantee that the items are in a
+        # particular order a) because it's a dict and b) because they may have
+        # been generated out of order.
+        modified_tags: list[tuple[int, int]] = []
         carried_delta = 0
-        for tfs in sliced_template:
-            if delta_stack:
-                idx, d = delta_stack[0]
-                if idx == tfs.source_slice.start + carried_delta:
-                    adjusted_slices.append(
-                        tfs._replace(
-                            # "stretch" the slice by adjusting the end more
-                            # than the start.
-                            source_slice=slice(
-                                tfs.source_slice.start + carried_delta,
-                                tfs.source_slice.stop + carried_delta - d,
-                            )
-                        )
-                    )
-                    carried_delta -= d
-                    delta_stack.pop(0)
-                    continue
+        for idx, d in sorted(length_deltas.items(), key=lambda t: t[0]):
+            modified_tags.append((idx + carried_delta, d))
+            carried_delta += d
 
-            # No delta match. Just shift evenly.
+        # A position in the modified template is shifted by the deltas of all
+        # the modified tags which start before it. That holds however the
+        # slices are ordered (loops revisit earlier positions) and whether or
+        # not the modified tag itself was reached when rendering. The end of a
+        # modified tag lies after its start, so the tag itself is "stretched".
+        adjusted_slices: list[TemplatedFileSlice] = []
+        for tfs in sliced_template:
+            start = tfs.source_slice.start
+            stop = tfs.source_slice.stop
             adjusted_slices.append(
                 tfs._replace(
                     source_slice=slice(
-                        tfs.source_slice.start + carried_delta,
-                        tfs.source_slice.stop + carried_delta,
+                        start - sum(d for pos, d in modified_tags if pos < start),
+                        stop - sum(d for pos, d in modified_tags if pos < stop),
                     )
                 )
             )
